@@ -165,7 +165,7 @@ def miscOp (toks : List String) : Option String :=
         let (sec, sub) ← Split.splitSeconds n d c
         let fs ← Split.subToFemto n d sub
         pure (sec, sub, fs)) fun (sec, sub, fs) => s!"{sec} {sub} {fs}")
-  | ["joinc", num, lo, hi, sec, _rep] => do
+  | "joinc" :: num :: lo :: hi :: sec :: _rep :: _optFs => do
       let num ← num.toInt?; let lo ← lo.toInt?; let hi ← hi.toInt?; let sec ← sec.toInt?
       some (match (if num == 1 then Split.joinSecondsRep lo hi sec else Split.joinCoarse num lo hi sec) with
             | some v => s!"ok {v}" | none => "false")
